@@ -42,6 +42,24 @@ def gen(rng, tier):
             u = kv[p] + (kv[kn] - kv[p]) * F(rng.randint(1, 99), 100); G.count('split_param', 'in-span')
         line = "split %s %s %d %s" % (KO.KIND[d['kind']], S.args(d), i, fr(u))
         out.append(Case('split', line, dict(shape=d, dir=i, u=u)))
+    # tolerance probes: split parameters very close to (but not on) an interior knot - the multiplicity
+    # lookup (find_multiplicity, 10e-8) must not treat them as the knot
+    for _ in range(10 if tier == 'quick' else 120):
+        d = _shape(rng)
+        nd = len(S.dirs(d))
+        i = rng.randrange(nd)
+        p, kv, kn = S.dirs(d)[i]
+        interior = sorted(set(kv[p + 1:kn]))
+        if not interior:
+            continue
+        x = rng.choice(interior)
+        off = rng.choice([F(2, 10 ** 7), F(3, 10 ** 6), F(3, 10 ** 5), F(3, 10 ** 4)]) * rng.choice([1, -1])
+        u = x + off
+        if not (kv[p] < u < kv[kn]) or u in kv:
+            continue
+        G.count('split_param', 'near-knot')
+        line = "split %s %s %d %s" % (KO.KIND[d['kind']], S.args(d), i, fr(u))
+        out.append(Case('split', line, dict(shape=d, dir=i, u=u), tags=('tol-probe',)))
     # mix-up probes: the domains of u and v differ and the split parameter of one direction is the
     # domain end of the other (a guard that looks at the wrong direction must show)
     for _ in range(8 if tier == 'quick' else 60):
